@@ -124,6 +124,7 @@ type Cluster struct {
 	OffsetFetchOrder string
 	AutoCreate       int // partitions for auto-created topics; 0: no auto-creation
 	Sasl             *SaslConfig
+	GroupOpts        GroupOptions // groupopts.go
 }
 
 type Topic struct {
